@@ -165,3 +165,12 @@ CLAIMED["C01"]["note"] = (
     "table values are never -inf (precondition). The lower-bound theorem from a Bellman-closed table to the minimum over all reconciliations is not proved. Four genuine defects found here were repaired in /repo (fix: commits).")
 CLAIMED["C05"]["text"] = CLAIMED["C05"]["text"].replace("Proof at the tag level:", "Proof at the tag level (entries and THL step functions):") + (
     " The tag clauses of the two THL step functions (ALL: exactly the optimal child placements incl. ties that appear only after loss costs are added; ANY: exactly one) are PROVED as part of their Bellman contracts.")
+
+CLAIMED["C03"]["text"] = CLAIMED["C03"]["text"].replace("PROVED from the real AST: the unordered labelling cost",
+    "PROVED from the real AST: _compute_lca_sets - the required content of every node is exactly the set of families that occur in a leaf below it and whose gain node is the node itself or one of its ancestors "
+    "(post-order loop invariant, set algebra, tree cuts), given gain sets in which each family sits at one node; the unordered labelling cost")
+
+CLAIMED["C15"]["text"] = CLAIMED["C15"]["text"].replace("Nothing is discharged deductively for this property yet.",
+    "PROVED from the real AST: balanced_wrap returns '' for an empty text and otherwise the newline-join of textwrap.wrap(text, w, break_long_words=False) for some 1 <= w <= width whose line count equals that of the requested width "
+    "(while-loop invariant with a ghost witness, termination measure) - with the ASSUMED library contract of textwrap.wrap this is the wrapped-label clause (every word kept, width respected unless a single word is longer, no more lines than greedy). "
+    "All other clauses are bounded only.")
